@@ -239,6 +239,30 @@ def symtab_stage(res, hbin, sd, rounds, pools):
     res.coverage["symtab_concurrent_inserts"] = tot
 
 
+def symseq_stage(res, hbin, mbin, d, sd, count):
+    """sequential insertion sequences: real SymbolTable vs extracted model Symtab.classes"""
+    cases, impl, model = (os.path.join(d, "symseq." + x) for x in ("cases", "impl", "model"))
+    rc, out = run([hbin, "symseq", str(sd), str(count), cases, impl], timeout=900)
+    if rc != 0:
+        res.violation("harness `c04 symseq` failed", {"kind": "harness", "log": out[-2000:]}, no_failing_input=True)
+        return
+    with open(cases) as fin, open(model, "w") as fout:
+        p = subprocess.run([mbin], stdin=fin, stdout=fout)
+    n = bad = 0
+    for c, i, m in zip(open(cases), open(impl), open(model)):
+        n += 1
+        c, i, m = c.rstrip("\n"), i.rstrip("\n"), m.rstrip("\n")
+        res.count_case(c, len(c.split(";")) >= 4)
+        if i != m:
+            bad += 1
+            if bad <= 3:
+                res.violation("symbol ids of a sequential insertion sequence differ from the model Symtab.classes: impl [%s] model [%s]"
+                              % (i, m), {"kind": "correspondence", "correspondence": "SymbolTable::insert/insert_extended vs "
+                                         "RH.Symtab.Symtab.classes (extracted)", "case": c, "impl": i, "model": m},
+                              no_failing_input=(i != "PANIC"))
+    res.coverage["symtab_sequences"] = n
+
+
 def main(tier, replay=None):
     res = Result(PROP, tier, level="proof")
     d = rundir(PROP)
@@ -437,6 +461,7 @@ def main(tier, replay=None):
                           "gave schedule-dependent diagnostics (%s)" % (kf.get("id", "?"), known_hits, kf.get("open", "")[:200]))
     if not replay:
         symtab_stage(res, hbin, sd, 400 if thorough else 60, pools)
+        symseq_stage(res, hbin, mbin, d, sd, 200000 if thorough else 20000)
     coq_cross_check(res, sample[:40])
     stats["known_finding_hits"] = known_hits
     res.coverage["exhaustive"] = False
